@@ -849,17 +849,131 @@ def graphmap_iters(facts):
             w.trace.append("swap")
             return ("opaque", "unit")
         raise Unknown("call %s" % f["path"])
-    # 1. Neighbors::next closure (directed): keep iff entry dir == Outgoing
-    cs = find("<graphmap::Neighbors<'_, N, Ty> as core::iter::Iterator>::next::{closure#0}")
-    if not cs:
-        r.bad(Violation("TABLE-GRAPHMAP", "graphmap::Neighbors::next", "anchor-missing", "src/graphmap.rs", 0, "Neighbors::next filter closure not found - fail closed"))
-    for b in cs:
+    # 1 + 2. Neighbors::next / NeighborsDirected::next, walked as whole functions over a one-entry adjacency row (whatever form the
+    #        filtering takes: filter_map + next, find, an explicit loop, ...)
+    def row_oracle(entry, directed):
+        state = {"left": [entry]}
+
+        def call_closure(w, clo, arg):
+            clo_v = deref(clo)
+            if not (isinstance(clo_v, tuple) and clo_v[0] == "agg" and str(clo_v[1]).startswith("closure:")):
+                raise Unknown("not a closure: %r" % (clo_v,))
+            cb = facts.body(clo_v[1][len("closure:"):])
+            if cb is None:
+                raise Unknown("closure body")
+            sub = Walk(facts, cb, orc, {1: clo if cb.lty(1).startswith("&") else clo_v, 2: arg})
+            sub._closure_ok = True
+            return sub.run()
+
+        def pull(w, it):
+            it = deref(it)
+            if it == ("rawiter",):
+                if state["left"]:
+                    return ("agg", "core::option::Option", "Some", [("ref", state["left"].pop(0))], 1)
+                return ("enum", 0, "None")
+            if isinstance(it, tuple) and it[0] == "adapt":
+                kind, inner, clo = it[1], it[2], it[3]
+                for _ in range(4):
+                    v = pull(w, inner)
+                    if not (isinstance(v, tuple) and v[0] == "agg" and v[2] == "Some"):
+                        return ("enum", 0, "None")
+                    x = v[3][0]
+                    if kind == "filter_map":
+                        r_ = call_closure(w, clo, x)
+                        if isinstance(r_, tuple) and r_[0] == "agg" and r_[2] == "Some":
+                            return r_
+                    elif kind == "map":
+                        return ("agg", "core::option::Option", "Some", [call_closure(w, clo, x)], 1)
+                    elif kind == "filter":
+                        if call_closure(w, clo, ("ref", x)) is True:
+                            return v
+                    elif kind in ("copied", "cloned"):
+                        return ("agg", "core::option::Option", "Some", [deref(x)], 1)
+                    else:
+                        raise Unknown("adaptor %s" % kind)
+                return ("enum", 0, "None")
+            raise Unknown("next on %r" % (it,))
+
+        def orc(w, f, args, t):
+            np_ = norm_path(f["path"])
+            nm = last_seg(np_)
+            if nm == "is_directed":
+                return directed
+            if nm in ("eq", "ne") and len(args) == 2:
+                x, y = deref(args[0]), deref(args[1])
+
+                def norm(z):
+                    return z[2] if isinstance(z, tuple) and z[0] == "enum" else z
+                res = norm(x) == norm(y)
+                return res if nm == "eq" else not res
+            if nm in ("filter_map", "map", "filter") and np_.startswith("core::iter::"):
+                return ("adapt", nm, args[0], args[1])
+            if nm in ("copied", "cloned", "by_ref", "into_iter") and np_.startswith("core::iter::"):
+                return ("adapt", nm, args[0], None) if nm in ("copied", "cloned") else args[0]
+            if nm == "next" and np_.startswith("core::iter::"):
+                return pull(w, args[0])
+            if nm == "find" and np_.startswith("core::iter::"):
+                for _ in range(4):
+                    v = pull(w, args[0])
+                    if not (isinstance(v, tuple) and v[0] == "agg" and v[2] == "Some"):
+                        return ("enum", 0, "None")
+                    if call_closure(w, args[1], ("ref", v[3][0])) is True:
+                        return v
+                return ("enum", 0, "None")
+            if nm == "find_map" and np_.startswith("core::iter::"):
+                for _ in range(4):
+                    v = pull(w, args[0])
+                    if not (isinstance(v, tuple) and v[0] == "agg" and v[2] == "Some"):
+                        return ("enum", 0, "None")
+                    r_ = call_closure(w, args[1], v[3][0])
+                    if isinstance(r_, tuple) and r_[0] == "agg" and r_[2] == "Some":
+                        return r_
+                return ("enum", 0, "None")
+            if nm == "map" and np_.startswith("core::option::Option"):
+                opt = args[0]
+                if isinstance(opt, tuple) and opt[0] == "agg" and opt[2] == "Some":
+                    return ("agg", "core::option::Option", "Some", [call_closure(w, args[1], opt[3][0])], 1)
+                return opt
+            if np_ == "core::ops::Try::branch":
+                opt = args[0]
+                if isinstance(opt, tuple) and opt[0] == "agg" and opt[2] == "Some":
+                    return ("agg", "core::ops::ControlFlow", "Continue", [opt[3][0]], 0)
+                return ("agg", "core::ops::ControlFlow", "Break", [("opaque", "residual")], 1)
+            if np_ == "core::ops::FromResidual::from_residual":
+                return ("enum", 0, "None")
+            raise Unknown("call %s" % np_)
+        return orc
+
+    def closure_patch():
+        orig = Walk.rvalue
+
+        def rvalue(self, rv):
+            if rv["k"] == "agg" and rv.get("ak") == "closure":
+                return ("agg", "closure:" + rv["name"], "", [self.operand(o) for o in rv["o"]], None)
+            return orig(self, rv)
+        if not getattr(Walk, "_closure_patched", False):
+            Walk.rvalue = rvalue
+            Walk._closure_patched = True
+    closure_patch()
+
+    def walk_iter(b, fields_vals, entry):
+        adt = facts.adts.get(b.impl_selfhead[4:] if b.impl_selfhead.startswith("adt:") else "")
+        if not adt:
+            raise Unknown("iterator struct not found")
+        ops = [fields_vals.get(f["name"], ("opaque", f["name"])) for f in adt["variants"][0]["fields"]]
+        selfv = ("agg", adt["path"], adt["variants"][0]["name"], ops, 0)
+        w = Walk(facts, b, row_oracle(entry, True), {1: ("ref", selfv)})
+        return w.run(600)
+
+    nb = [b for b in facts.bodies if b.kind == "AssocFn" and b.name == "next" and b.impl_trait == "core::iter::Iterator" and b.impl_selfhead == "adt:graphmap::Neighbors"]
+    if not nb:
+        r.bad(Violation("TABLE-GRAPHMAP", "graphmap::Neighbors::next", "anchor-missing", "src/graphmap.rs", 0, "Neighbors::next not found - fail closed"))
+    for b in nb:
         for d in (0, 1):
             entry = ("agg", "tuple", "", [("opaque", "n"), cdir(d)], None)
             site = "neighbors:entry=%s" % cdir(d)[2]
             try:
-                w = Walk(facts, b, oracle, {1: ("ref", ("agg", "closure", "", [], None)), 2: ("ref", entry)})
-                res = w.run()
+                res = walk_iter(b, {"iter": ("rawiter",)}, entry)
             except Unknown as e:
                 r.silent += 1
                 r.ok(b.npath, site, "unrecognised construct (%s): silent" % e)
@@ -870,32 +984,18 @@ def graphmap_iters(facts):
             else:
                 r.bad(Violation("TABLE-GRAPHMAP", b.npath, site, b.file, b.line, "directed neighbors(): an %s entry is %s; only Outgoing entries are successors"
                                 % (cdir(d)[2], "kept" if kept else "dropped")))
-    # 2. NeighborsDirected::next closure
-    cs = find("<graphmap::NeighborsDirected<'_, N, Ty> as core::iter::Iterator>::next::{closure#0}")
-    if not cs:
-        r.bad(Violation("TABLE-GRAPHMAP", "graphmap::NeighborsDirected::next", "anchor-missing", "src/graphmap.rs", 0, "NeighborsDirected::next filter closure not found - fail closed"))
-    for b in cs:
-        # capture order from the parent's closure aggregate
-        parent = facts.body(b.root)
-        order = None
-        if parent:
-            for _, _, st in parent.stmts():
-                rv = st["rv"]
-                if rv["k"] == "agg" and rv["ak"] == "closure" and rv["name"] == b.path:
-                    order = [parent.lname(op_local(o)) if op_local(o) is not None else "?" for o in rv["o"]]
-        if not order or set(order) != {"self_dir", "start_node"}:
-            r.silent += 1
-            r.ok(b.npath, "neighbors_directed", "capture list %s not recognised: silent" % order)
-            continue
+    nd = [b for b in facts.bodies if b.kind == "AssocFn" and b.name == "next" and b.impl_trait == "core::iter::Iterator" and b.impl_selfhead == "adt:graphmap::NeighborsDirected"]
+    if not nd:
+        r.bad(Violation("TABLE-GRAPHMAP", "graphmap::NeighborsDirected::next", "anchor-missing", "src/graphmap.rs", 0, "NeighborsDirected::next not found - fail closed"))
+    for b in nd:
         for q in (0, 1):
             for d in (0, 1):
                 for same in (False, True):
-                    caps = {"self_dir": ("enum", q, ["Outgoing", "Incoming"][q]), "start_node": ("opaque", "start")}
+                    qd = ("enum", q, ["Outgoing", "Incoming"][q])
                     entry = ("agg", "tuple", "", [("opaque", "start" if same else "other"), cdir(d)], None)
-                    site = "neighbors_directed:query=%s,entry=%s,%s" % (caps["self_dir"][2], cdir(d)[2], "start-node" if same else "other-node")
+                    site = "neighbors_directed:query=%s,entry=%s,%s" % (qd[2], cdir(d)[2], "start-node" if same else "other-node")
                     try:
-                        w = Walk(facts, b, oracle, {1: ("ref", ("agg", "closure", "", [caps[x] for x in order], None)), 2: ("ref", entry)})
-                        res = w.run()
+                        res = walk_iter(b, {"iter": ("rawiter",), "start_node": ("opaque", "start"), "dir": qd}, entry)
                     except Unknown as e:
                         r.silent += 1
                         r.ok(b.npath, site, "unrecognised construct (%s): silent" % e)
@@ -907,7 +1007,7 @@ def graphmap_iters(facts):
                     else:
                         r.bad(Violation("TABLE-GRAPHMAP", b.npath, site, b.file, b.line,
                                         "directed neighbors_directed(%s): an %s entry for %s is %s, expected %s (a self-loop is stored once as Outgoing and "
-                                        "must be listed for Incoming too)" % (caps["self_dir"][2], cdir(d)[2], "the start node itself" if same else "another node",
+                                        "must be listed for Incoming too)" % (qd[2], cdir(d)[2], "the start node itself" if same else "another node",
                                                                                "kept" if kept else "dropped", "kept" if want else "dropped")))
     # 3. EdgesDirected::next closure: swap exactly for Incoming
     cs = find("<graphmap::EdgesDirected<'a, N, E, Ty, S> as core::iter::Iterator>::next::{closure#0}")
